@@ -286,6 +286,27 @@ func runC37(r *Report) {
 			k := strings.Index(src[i:], "filterKey, 'SET'")
 			inLoop = j > 0 && k > 0
 		}
+		// both writes are unconditional statements of the per-index loop body
+		depthAt := func(pos int) int {
+			d := 0
+			for _, m := range regexp.MustCompile(`\b(for|while|if|function|repeat|end|until)\b`).FindAllStringIndex(src[:pos], -1) {
+				switch src[m[0]:m[1]] {
+				case "end", "until":
+					d--
+				default:
+					d++
+				}
+			}
+			return d
+		}
+		if li := strings.Index(src, "for i=1, numElements do"); li >= 0 {
+			want := depthAt(li) + 1
+			for _, m := range setRe.FindAllStringIndex(src, -1) {
+				if m[0] < li || depthAt(m[0]) != want {
+					inLoop = false
+				}
+			}
+		}
 		r.Ob("R37d", nil, "add-sets-bit-in-current-and-next-filter", token.NoPos, ok && inLoop, "for every index the add script sets the bit in filterKey and in nextFilterKey (the copy that survives the next rotation)")
 	}
 	for _, sn := range []string{"slidingBloomFilterExistsMultiScript", "slidingBloomFilterExistsReadOnlyMultiScript"} {
@@ -294,6 +315,28 @@ func runC37(r *Report) {
 			keys[g[1]] = true
 		}
 		r.Ob("R37d", nil, sn+":reads-current-filter", token.NoPos, len(keys) == 1 && keys["filterKey"], "the exists script tests bits of filterKey (the generation every add of the last period wrote to)")
+	}
+
+	// initialize creates the keys only when every key it writes was tested absent
+	{
+		src := scripts["slidingBloomFilterInitializeScript"]
+		ex := regexp.MustCompile(`if\s+redis\.call\(\s*'EXISTS'\s*,([^)]*)\)\s*==\s*0\s*then`).FindStringSubmatch(src)
+		ms := regexp.MustCompile(`redis\.call\(\s*'MSET'\s*,([^)]*)\)`).FindStringSubmatch(src)
+		ok := ex != nil && ms != nil
+		if ok {
+			tested := map[string]bool{}
+			for _, a := range strings.Split(ex[1], ",") {
+				tested[strings.TrimSpace(a)] = true
+			}
+			args := strings.Split(ms[1], ",")
+			for i := 0; i < len(args); i += 2 {
+				if !tested[strings.TrimSpace(args[i])] {
+					ok = false
+				}
+			}
+			ok = ok && len(args) >= 8
+		}
+		r.Ob("R37d", nil, "initialize-writes-only-keys-tested-absent", token.NoPos, ok, "the initialize script (run by every constructor, also for an existing filter) creates empty filters only when all the keys it writes were tested absent: the rotation lock alone expires by itself and says nothing about the filters")
 	}
 
 	// R37e: one rotation prologue
